@@ -131,3 +131,11 @@ reg("C41", "model_checking", "TLA+ spec Expose (bus obligations) with operationa
     "expiry (sampled in quick) and random bursts for cooldown 0, 2 s and 10 s; every trace of calls and value telegrams must be a behaviour of Expose.",
     "Trusted: TLC, the virtual-time loop, the mocked interface (sends at once). initialize_value is read as 'treated as sent'.",
     "DESIGN.md section 5 C41")
+
+reg("C42", "model_checking", "TLA+ reference ResetCounter (reported state and counter as functions of the telegram history) explored with TLC; trace validation of the real Switch / BinarySensor under virtual time",
+    "ResetCounter is explored over every telegram sequence of length four over the gap classes around the configured time (reports 'on' exactly while an 'on' is "
+    "younger than the reset time, counter at least one); the real Switch(reset_after), BinarySensor(reset_after) and BinarySensor(context_timeout) process on/off histories "
+    "with gaps below, at and above the configured times, and every recorded telegram, callback and sample (state, counter, time; samples 10-50 ms around each expiry) "
+    "must be explained by the reference.",
+    "Trusted: TLC, the virtual-time loop. Instants within 2 ms of an expiry may read either state; alternation inside one context window is left open.",
+    "DESIGN.md section 5 C42")
